@@ -8,9 +8,13 @@ use std::collections::HashMap;
 
 /// interned column names (id = index); 0 / 1 are the time columns the
 /// extraction skips
-pub const COLS: [&str; 10] = [
+pub const COLS: [&str; 19] = [
     "timestamp", "time", "value_i64", "value_f64", "value_u64", "host", "service", "metric_name", "flag", "nostats",
+    // families of names that differ only in case or share a prefix (ids 10..)
+    "Value_i64", "VALUE_I64", "value_i64_max", "Host", "HOST", "host_name", "Value_f64", "value", "Value",
 ];
+/// columns whose names collide when case is ignored / one is a prefix of the other
+pub const FAMILIES: [&[usize]; 4] = [&[2, 10, 11, 12], &[5, 13, 14, 15], &[3, 16], &[17, 18]];
 pub fn col_id(name: &str) -> usize {
     COLS.iter().position(|c| *c == name).unwrap_or(99)
 }
